@@ -62,11 +62,19 @@ impl SubscriptionManager {
             state.create_subscription(info, topic.clone(), self.push_registry.clone(), delegate)?
         };
 
-        #[cfg(deltio_verif)]
-        crate::verif::point("manager.create.attach").await;
-        topic
-            .attach_subscription(subscription.clone())
+        // Attach in a separate task, so that the subscription does not end up registered
+        // but unattached if the caller goes away while we wait for the topic.
+        let attach = tokio::spawn({
+            let subscription = Arc::clone(&subscription);
+            async move {
+                #[cfg(deltio_verif)]
+                crate::verif::point("manager.create.attach").await;
+                topic.attach_subscription(subscription).await
+            }
+        });
+        attach
             .await
+            .unwrap_or(Err(AttachSubscriptionError::Closed))
             .map_err(|e| match e {
                 AttachSubscriptionError::Closed => CreateSubscriptionError::Closed,
             })?;
